@@ -80,6 +80,57 @@ def gen_array(rng, n):
     return [off + spread * rng.gauss(0, 1) for _ in range(n)]
 
 
+SPECIALS = ["wmean0", "wmean0", "wmean0", "mean0", "mean0-weighted", "const", "negzero", "wmean-int",
+            "equal-pair", "wmean0-mean0"]
+
+
+def gen_special(rng):
+    """readings and uncertainties built from dyadic numbers so that binary64 arithmetic is EXACT and
+    a statistic takes an exact special value: error-weighted mean exactly 0 (arithmetic mean not),
+    arithmetic mean exactly 0, zero spread, negative zeros, all readings equal.
+    Returns (tag, xs, es-or-None)."""
+    tag = rng.choice(SPECIALS)
+    n = rng.choice([2, 2, 3, 3, 4, 5, 8])
+    small = lambda: rng.randint(-24, 24) / rng.choice([1, 2, 4])   # noqa: E731
+    if tag in ("wmean0", "wmean-int", "wmean0-mean0"):
+        while True:
+            es = [2.0 ** rng.randint(-2, 2) for _ in range(n)]
+            if tag == "wmean0-mean0":
+                es = [es[0]] * n              # equal weights: both means are exactly 0
+            w = [1 / (e * e) for e in es]     # powers of two: exact
+            xs = [small() for _ in range(n - 1)]
+            target = 0.0 if tag != "wmean-int" else float(rng.randint(-3, 3))
+            # sum(w_i x_i) = target * sum(w)  ->  last reading (exact: everything is dyadic)
+            last = (target * sum(w) - sum(wi * x for wi, x in zip(w, xs))) / w[-1]
+            xs.append(last)
+            from fractions import Fraction as Fr
+            exact = sum(Fr(wi) * Fr(x) for wi, x in zip(w, xs)) / sum(Fr(wi) for wi in w)
+            if exact != Fr(target) or abs(last) > 1e6 or len(set(xs)) < 2:
+                continue
+            if tag == "wmean0" and sum(Fr(x) for x in xs) == 0:
+                continue                      # the arithmetic mean must differ from the weighted one
+            return tag, xs, es
+    if tag in ("mean0", "mean0-weighted"):
+        while True:
+            xs = [small() for _ in range(n - 1)]
+            xs.append(-sum(xs))
+            if len(set(xs)) >= 2:
+                break
+        es = [2.0 ** rng.randint(-2, 2) for _ in range(n)] if tag == "mean0-weighted" else None
+        return tag, xs, es
+    if tag == "const":
+        v = small()
+        return tag, [v] * n, (None if rng.random() < 0.5 else [2.0 ** rng.randint(-2, 2) for _ in range(n)])
+    if tag == "negzero":
+        xs = [rng.choice([-0.0, 0.0, -0.0, small()]) for _ in range(n)]
+        if len(set(xs)) < 2 and rng.random() < 0.7:
+            xs[0] = 1.0
+        return tag, xs, (None if rng.random() < 0.4 else [2.0 ** rng.randint(-1, 1) for _ in range(n)])
+    # equal-pair: two equal readings (n = 2, spread exactly 0) with different uncertainties
+    v = small()
+    return tag, [v, v], [0.5, 2.0]
+
+
 def gen_case(rng, malformed=False):
     n = rng.choice([2, 2, 3, 3, 4, 5, 5, 8, 10, 17, 40]) if rng.random() < 0.6 else rng.randint(2, 40)
     xs = gen_array(rng, n)
@@ -87,6 +138,16 @@ def gen_case(rng, malformed=False):
          "sels": [rng.choice(SELS) for _ in range(rng.choice([0, 1, 2, 3, 4, 6, 8]))],
          "k": bits(rng.choice([2.0, -3.0, 0.5, 1.0, -1.25])), "c": bits(rng.choice([0.0, 1.0, -7.5])),
          "pair": None, "bad": None}
+    if not malformed and rng.random() < 0.2:
+        tag, xs, es = gen_special(rng)
+        c["special"] = tag
+        c["xs"] = [bits(x) for x in xs]
+        c["es"] = [bits(e) for e in es] if es else None
+        if es and "use_wmean" not in c["sels"]:
+            c["sels"].insert(rng.randint(0, len(c["sels"])), "use_wmean")
+        if es and rng.random() < 0.5:
+            c["sels"].append(rng.choice(SELS))
+        return c
     k = rng.random()
     if k < 0.3:
         c["common"] = bits(H.rand_pos(rng))
@@ -136,6 +197,33 @@ def gen_case(rng, malformed=False):
         else:
             c["bad"] = None   # a single reading is outside the quantifier; keep the case valid
     return c
+
+
+def gen_collinear_case(rng):
+    """plain reading arrays that are EXACTLY collinear (small integers / dyadic numbers, slope and
+    offset exact): the inferred covariance sits on the Cauchy-Schwarz bound, the correlation is
+    exactly +-1 — the clamps of set_covariance / set_correlation and the quotient of the parent
+    class must work together on every rounding pattern of std_x * std_y (a few percent of such
+    pairs round unfavourably)"""
+    n = rng.choice([2, 2, 2, 3, 3, 4, 5, 8])
+    while True:
+        if rng.random() < 0.6:
+            xs = [float(rng.randint(-20, 20)) for _ in range(n)]
+        else:
+            xs = [rng.choice([0.0, 16.0, 1024.0]) + H.dyadic(rng) for _ in range(n)]
+        if len(set(xs)) >= 2:
+            break
+    kk = rng.choice([3.0, -3.0, 5.0, 7.0, -1.5, 1.25, 6.0, -7.0, 1.5, 2.0, 0.25, 1.125, 0.75, -0.75])
+    cc = rng.choice([0.0, 1.0, -3.5, 100.0, float(rng.randint(-5, 5))])
+    ys = [kk * x + cc for x in xs]
+    assert all(F(y) == F(kk) * F(x) + F(cc) for x, y in zip(xs, ys))
+    return {"xs": [bits(x) for x in xs], "nd": rng.random() < 0.4, "es": None, "common": None,
+            "sels": [rng.choice(SELS) for _ in range(rng.choice([0, 0, 1, 2]))],
+            "k": bits(rng.choice([2.0, -3.0, 0.5])), "c": bits(rng.choice([0.0, 1.0])),
+            "pair": {"ys": [bits(y) for y in ys], "mode": "collinear" if kk > 0 else "anti",
+                     "sign": 1 if kk > 0 else -1, "via": "cov" if rng.random() < 0.85 else "corr",
+                     "form": rng.choice(["fn", "meth"])},
+            "bad": None, "special": "collinear-targeted"}
 
 
 def describe(c):
@@ -216,6 +304,64 @@ def model_line(c):
 
 
 # ---------------------------------------------------------------- comparison
+def zero_spread_exact(c):
+    xs = [unbits(x) for x in c["xs"]]
+    x = xs[0]
+    return (len(set(xs)) == 1 and math.isfinite(x) and abs(x) < 2.0 ** 20
+            and (x * 64.0).is_integer() and len(xs) <= 64)
+
+
+def const_check(c, o, fail):
+    """readings all equal to a dyadic x: mean = x, std = error on the mean = 0 exactly; weighted
+    mean x (to 4 ulp), propagated error by definition; selector trace and downstream use"""
+    xs = [unbits(x) for x in c["xs"]]
+    x, n = xs[0], len(xs)
+    if not (o["mean"] == x):
+        fail("stat:mean", "mean of equal readings differs from the reading", impl=o["mean"], expected=x)
+    for attr in ("std", "error_on_mean"):
+        if not (o[attr] == 0.0):
+            fail("stat:" + attr, "{} of equal (dyadic) readings is not exactly 0".format(attr),
+                 impl=o[attr], expected=0.0)
+    es = [unbits(e) for e in c["es"]] if c["es"] is not None else (
+        [unbits(c["common"])] * n if c["common"] is not None else [0.0] * n)
+    haszero = any(e == 0 for e in es)
+    if haszero:
+        wm = pe = None
+        for attr in ("error_weighted_mean", "propagated_error"):
+            if not (isinstance(o[attr], float) and math.isnan(o[attr])):
+                fail("stat:" + attr + ":zero", attr + " with a zero individual uncertainty should be nan",
+                     impl=o[attr], expected="nan")
+    else:
+        wm, pe = x, 1 / math.sqrt(sum(1 / (e * e) for e in es))
+        if not (isinstance(o["error_weighted_mean"], float) and H.ulps(o["error_weighted_mean"], x) <= 4
+                if x != 0 else o["error_weighted_mean"] == 0):
+            fail("stat:error_weighted_mean", "weighted mean of equal readings differs from the reading",
+                 impl=o["error_weighted_mean"], expected=x)
+        if not (isinstance(o["propagated_error"], float) and H.ulps(o["propagated_error"], pe) <= 8):
+            fail("stat:propagated_error", "propagated error differs from 1/sqrt(sum 1/e^2)",
+                 impl=o["propagated_error"], expected=pe)
+    val, err = x, 0.0
+    kk, cc = unbits(c["k"]), unbits(c["c"])
+    for i, ot in enumerate(o["trace"]):
+        sel = c["sels"][i - 1] if i else "init"
+        if sel in ("use_std", "use_sem"):
+            err = 0.0
+        elif sel == "use_wmean" and wm is not None:
+            val = o["error_weighted_mean"]      # already checked against x above
+        elif sel == "use_perr" and pe is not None:
+            err = o["propagated_error"]
+        if not isinstance(ot, list):
+            fail("selector:{}:exception".format(sel), "selector / read raised " + str(ot), impl=ot)
+            break
+        exp = [val, err, kk * val + cc, abs(kk) * err]
+        bad = [f for f, a, b in zip(("value", "error", "downstream-value", "downstream-error"), ot, exp)
+               if not (a == b or abs(a - b) <= 1e-12 * abs(b))]
+        if bad:
+            fail("selector:{}:{}".format(sel, bad[0]), "after {} the {} is not the selected statistic "
+                 "(equal readings)".format(sel, bad[0]), impl=ot, expected=exp, step=i, clause="selectors")
+            break
+
+
 def compare(c, o, m):
     """-> (failures, nontrivial?, skipped?)"""
     fails = []
@@ -242,15 +388,21 @@ def compare(c, o, m):
     if o["class"] != "RepeatedlyMeasuredValue":
         fail("class", "not recorded as a repeated measurement", impl=o["class"])
     std, stdb = fb(m["std"])
-    if not (math.isfinite(stdb) and stdb <= 1e-6 * abs(std) + 1e-300):
+    const = zero_spread_exact(c)
+    if const:
+        # all readings equal and dyadic: every sum is exact, so mean = x, std = sem = 0 EXACTLY and
+        # the selectors must hand on exactly those numbers (the FB bound of sqrt at 0 is useless)
+        const_check(c, o, fail)
+        std = 0.0
+    elif not (math.isfinite(stdb) and stdb <= 1e-6 * abs(std) + 1e-300):
         return fails, False, True      # ill-conditioned by the model's own bound (or zero spread)
     names = {"mean": "mean", "std": "std", "error_on_mean": "sem"}
-    for attr, key in names.items():
+    for attr, key in ({} if const else names).items():
         mv, mb = fb(m[key])
         if not isinstance(o[attr], float) or not close(o[attr], mv, mb):
             fail("stat:" + attr, "{} differs from its definition".format(attr), impl=o[attr],
                  expected=mv, bound=mb, clause=attr)
-    for attr, key in (("error_weighted_mean", "wmean"), ("propagated_error", "perr")):
+    for attr, key in (() if const else (("error_weighted_mean", "wmean"), ("propagated_error", "perr"))):
         if m["haszero"]:
             if not (isinstance(o[attr], float) and math.isnan(o[attr])):
                 fail("stat:" + attr + ":zero", "{} with a zero individual uncertainty should be "
@@ -261,7 +413,7 @@ def compare(c, o, m):
                 fail("stat:" + attr, "{} differs from its definition".format(attr), impl=o[attr],
                      expected=mv, bound=mb, clause=attr)
     # selector trace + downstream use
-    for i, (ot, mt, md) in enumerate(zip(o["trace"], m["trace"], m["down"])):
+    for i, (ot, mt, md) in enumerate(() if const else zip(o["trace"], m["trace"], m["down"])):
         sel = c["sels"][i - 1] if i else "init"
         if not isinstance(ot, list):
             fail("selector:{}:exception".format(sel), "selector / read raised " + str(ot), impl=ot)
@@ -335,6 +487,8 @@ def run_cases(ctx, cases, ref=False):
         d["errors:" + ("each" if c["es"] else "common" if c["common"] is not None else "none")] += 1
         d["container:" + ("ndarray" if c["nd"] else "list")] += 1
         d["selectors:%d" % len(c["sels"])] += 1
+        if c.get("special"):
+            d["special:" + c["special"]] += 1
         for s in c["sels"]:
             d["sel:" + s] += 1
         if c["bad"]:
@@ -357,7 +511,8 @@ def run_cases(ctx, cases, ref=False):
 
 
 def chunk(sub, n):
-    cases = [gen_case(sub.rng, malformed=(i % 10 == 9)) for i in range(n)]
+    cases = [gen_collinear_case(sub.rng) if i % 4 == 1 else gen_case(sub.rng, malformed=(i % 10 == 9))
+             for i in range(n)]
     return run_cases(sub, cases)
 
 
@@ -473,7 +628,7 @@ def search_chunk(sub, n):
     import qexpy as q
     res = {"evaluations": n, "failures": []}
     for i in range(n):
-        c = gen_case(sub.rng, malformed=(i % 10 == 9))
+        c = gen_collinear_case(sub.rng) if i % 4 == 1 else gen_case(sub.rng, malformed=(i % 10 == 9))
         res["failures"] += exact_check(c, observe(q, c))
     H.reset(q)
     return res
